@@ -58,8 +58,10 @@ def generate(seed: int, tier: str = "quick") -> dict:
     roll = r_sch.random()
     if roll < 0.38:
         tr = {"kind": "file"}
-    elif roll < 0.45:
+    elif roll < 0.42:
         tr = {"kind": "capfile", "cap": r_sch.choice((1, 2, 3, 7, 16, 20, 64))}
+    elif roll < 0.45:
+        tr = {"kind": "pipe"}
     elif roll < 0.8:
         tr = common.draw_transport(r_sch, wire_len, spans, kinds=("socket",))
         cfg["bufsize"] = r_sch.choice(sched.BUFSIZES)
@@ -71,7 +73,7 @@ def generate(seed: int, tier: str = "quick") -> dict:
             k = r_sch.randrange(1, len(segs))
             for s in segs[k:]:
                 s[0] = round(s[0] + r_sch.choice((1.5, 3.0, 10.0)), 6)
-        tr = {"kind": "socket", "segments": segs, "timeout": 1.0, "end": r_sch.choice(("close", "timeout")), "host_delay": 0.0, "stress": "stall", "rereads": 6}
+        tr = {"kind": "socket", "segments": segs, "timeout": 1.0, "end": r_sch.choice(("close", "timeout")), "host_delay": 0.0, "stress": "stall", "rereads": 14, "redrive": r_sch.choice(("read", "iter"))}
         cfg["bufsize"] = r_sch.choice(sched.BUFSIZES)
     else:
         sizes = sched.random_segments(r_sch, wire_len, spans)
@@ -100,10 +102,24 @@ def _drive(wire, cfg, tr):
     kw = reader_kwargs(cfg)
     kw["errorhandler"] = lambda err: out.events.append(("E",) + canon_exc(err))
     ends = 0
+    late = 0  # re-entries made after the peer had sent its last byte
+    by_iteration = tr.get("redrive") == "iter"
     try:
         ubr = UBXReader(tp, **kw)
         while ends <= rereads:
-            raw, parsed = ubr.read()
+            if ends and hasattr(tp, "idle"):
+                tp.idle(1.0)  # the application waits a little before asking again
+            if hasattr(tp, "everything_arrived") and tp.everything_arrived():
+                late += 1
+            if by_iteration:
+                # the application iterates again after each end of iteration (e.g. `for` inside `while True`)
+                try:
+                    raw, parsed = next(ubr)
+                except StopIteration:
+                    ends += 1
+                    continue
+            else:
+                raw, parsed = ubr.read()
             if raw is None and parsed is None:
                 ends += 1
                 continue
@@ -114,7 +130,7 @@ def _drive(wire, cfg, tr):
         out.hang = str(err)
     except Exception as err:  # pylint: disable=broad-except
         out.exc = canon_exc(err)
-    return out, ends
+    return out, late
 
 
 def _judge(wire, out, full_consumption: bool):
@@ -138,7 +154,7 @@ def _run(scn, res=None):
     cfg = scn["config"]
     tr = scn["transport"]
     wire = link.wire_of(scn["frames"]) if "frames" in scn else bytes.fromhex(scn["wire"])
-    out, _ = _drive(wire, cfg, tr)
+    out, late_entries = _drive(wire, cfg, tr)
     if res is not None:
         res.evaluations += 1
         res.sim_seconds += out.transport.sim_seconds
@@ -150,6 +166,7 @@ def _run(scn, res=None):
         c.hit(tr["kind"] + "_runs")
         if tr.get("stress") == "stall":
             c.hit("stall_runs")
+            c.hit("stall_redrive_" + str(tr.get("redrive")))
             c.hit("fault_stall", getattr(out.transport, "midstream_timeouts", 0))
         if tr["kind"] == "capfile":
             c.hit("fault_capped_read", out.transport.capped_reads)
@@ -168,7 +185,14 @@ def _run(scn, res=None):
         if res is not None:
             res.skipped_base_failed += 1
         return None
-    return _judge(wire, out, full_consumption=not tr.get("stress"))
+    v = _judge(wire, out, full_consumption=not tr.get("stress"))
+    if v is None and tr.get("stress") == "stall":
+        # the pause is over (every byte has arrived, the reader kept asking well past the end): what
+        # remains unread now was abandoned, not merely late
+        tp = out.transport
+        if late_entries is not None and late_entries >= 3 and tp.handed_out != len(wire):
+            return ("bytes_left_unread_after_stream_resumed", f"the reader reported end of stream during a pause; after the stream resumed and ended, {len(wire) - tp.handed_out} of {len(wire)} bytes were never read ({'iteration' if tr.get('redrive') == 'iter' else 'read()'} re-entered {tr.get('rereads')} times)")
+    return v
 
 
 def execute(scn):
